@@ -1,0 +1,7 @@
+//go:build !verif
+
+package gohlslib
+
+// verifHook marks a scheduling point used by the verification harnesses (build tag verif).
+// Without the tag it is an empty function that the compiler inlines away.
+func verifHook(string) {}
